@@ -42,7 +42,7 @@ def run(ctx):
              "pairs; depth 2-3 nestings) x scenarios {identity, registered function echo, registered constant, context "
              "field in 3 manual + 3 derived field orders, script-side construction/matching/?/accept/reject, registered "
              "methods (sized and zero-sized receiver, static), list get/for, every argument position of arities 2/4/7 in "
-             "both directions directly and behind a script-to-script call, narrow-int arithmetic handed to Rust} x edge "
+             "both directions directly and behind a script-to-script call, narrow-int arithmetic handed to Rust, library!-registered function/closure/method/constants} x edge "
              "values then random values; plus the model facts (layout, payload offsets, discriminant bytes at predicted "
              "offsets of real values, Lowerer::location offsets, lowered and runtime-call signatures) on the family, on "
              "300/3000 random deeper types and 400/6000 random multi-parameter signatures against the Lean driver; a class "
